@@ -106,12 +106,16 @@ type vfC08Client struct {
 
 // vfC08Conf is a generated configuration.
 type vfC08Conf struct {
-	Anonymize bool
-	RefuseAny bool
-	LogRules  []vfC08Rule
-	StatRules []vfC08Rule
-	Clients   []*vfC08Client
-	Domains   []string
+	// AnonymizeViaAPI: the server starts with the opposite anonymisation
+	// setting and is switched to Anonymize through the query-log config API
+	// before the queries.
+	AnonymizeViaAPI bool
+	Anonymize       bool
+	RefuseAny       bool
+	LogRules        []vfC08Rule
+	StatRules       []vfC08Rule
+	Clients         []*vfC08Client
+	Domains         []string
 }
 
 var vfC08ClientAddrs = map[string][]string{
@@ -124,6 +128,7 @@ var vfC08ClientAddrs = map[string][]string{
 func vfC08Draw(t *rapid.T) (c *vfC08Conf) {
 	c = &vfC08Conf{}
 	c.Anonymize = rapid.Bool().Draw(t, "anonymize")
+	c.AnonymizeViaAPI = rapid.IntRange(0, 2).Draw(t, "anonymize_via_api") == 0
 	c.RefuseAny = rapid.Bool().Draw(t, "refuse_any")
 	nd := rapid.IntRange(1, 3).Draw(t, "n_domains")
 	for i := 0; i < nd; i++ {
@@ -157,7 +162,7 @@ func (c *vfC08Conf) describe() (m map[string]any) {
 		cls = append(cls, fmt.Sprintf("%s@%s ignorelog=%t ignorestats=%t", cl.IDKind, cl.Addr, cl.IgnoreLog, cl.IgnoreStats))
 	}
 
-	return map[string]any{"anonymize": c.Anonymize, "refuse_any": c.RefuseAny, "querylog_ignored": lr, "stats_ignored": sr, "clients": cls}
+	return map[string]any{"anonymize": c.Anonymize, "anonymize_set_via_api": c.AnonymizeViaAPI, "refuse_any": c.RefuseAny, "querylog_ignored": lr, "stats_ignored": sr, "clients": cls}
 }
 
 // vfAnonOK reports whether ip has its last 16 (v4) / 80 (v6) bits zero.
@@ -179,6 +184,7 @@ func vfAnonOK(ip netip.Addr) (ok bool) {
 
 // vfMask is the expected stored form of an address.
 func vfMask(ip netip.Addr, anonymize bool) (out netip.Addr) {
+	ip = ip.Unmap()
 	if !anonymize {
 		return ip
 	}
@@ -217,7 +223,7 @@ func vfDrawC08World(t *rapid.T) (r *vfC08Run) {
 
 	wc := &vfWorldConf{
 		ProtectionEnabled: true, FilteringEnabled: true, ServerName: "dns.vf.test",
-		WithLogStats: true, Anonymize: c.Anonymize, RefuseAny: c.RefuseAny, QLogMemSize: 1000,
+		WithLogStats: true, Anonymize: c.Anonymize != c.AnonymizeViaAPI, RefuseAny: c.RefuseAny, QLogMemSize: 1000,
 		HTTPRegister: func(method, url string, h http.HandlerFunc) { r.handlers[method+" "+url] = h },
 		DHCPMAC:      map[netip.Addr]net.HardwareAddr{},
 	}
@@ -293,6 +299,23 @@ func vfDrawC08World(t *rapid.T) (r *vfC08Run) {
 	}
 	w.stats.Start()
 
+	if c.AnonymizeViaAPI {
+		ign := wc.QLogIgnored
+		if ign == nil {
+			ign = []string{}
+		}
+		body, _ := json.Marshal(map[string]any{
+			"enabled": true, "anonymize_client_ip": c.Anonymize, "interval": 86400000, "ignored": ign,
+		})
+		rec := httptest.NewRecorder()
+		req := httptest.NewRequest(http.MethodPut, "/control/querylog/config/update", strings.NewReader(string(body)))
+		r.handlers["PUT /control/querylog/config/update"](rec, req)
+		if rec.Code != http.StatusOK {
+			t.Fatalf("VERIF-INCONCLUSIVE querylog config update: %d %s", rec.Code, rec.Body.String())
+		}
+		vfC08.Class(fmt.Sprintf("anonymize_set_via_api=%t", c.Anonymize))
+	}
+
 	return r
 }
 
@@ -347,6 +370,13 @@ func (r *vfC08Run) runQueries(t *rapid.T) {
 		} else {
 			q.Addr = netip.MustParseAddr(rapid.SampledFrom([]string{"198.18.5.6", "198.18.77.200", "2001:db8:aaaa:bbbb:cccc:dddd:eeee:ffff", "192.0.2.78"}).Draw(t, label+"_addr"))
 			q.Class = "anon"
+		}
+
+		if q.Addr.Is4() && rapid.IntRange(0, 3).Draw(t, label+"_mapped") == 0 {
+			// the same client seen through a 4-in-6 address (dual-stack DoH
+			// listener, real-IP header of a proxy)
+			q.Addr = netip.AddrFrom16(q.Addr.As16())
+			q.Class += "+4in6"
 		}
 
 		lname := strings.ToLower(strings.TrimSuffix(q.Name, "."))
@@ -547,7 +577,7 @@ func (r *vfC08Run) checkFileBytes(t *rapid.T, qs []*vfC08Q) {
 			if vfAnonOK(q.Addr) {
 				continue
 			}
-			if strings.Contains(string(b), `"`+q.Addr.String()+`"`) {
+			if strings.Contains(string(b), `"`+q.Addr.Unmap().String()+`"`) {
 				t.Fatalf("querylog.json holds the un-anonymised address %s", q.Addr)
 			}
 		}
@@ -677,7 +707,7 @@ func (r *vfC08Run) checkStatsDB(t *rapid.T, qs []*vfC08Q) {
 		if !q.WantCount && !vfCountedSuperstring(counted, name) && strings.Contains(string(b), name) {
 			t.Fatalf("stats.db holds the ignored name %q\nconfig: %v", name, r.conf.describe())
 		}
-		if r.conf.Anonymize && !vfAnonOK(q.Addr) && q.ClientID == "" && strings.Contains(string(b), q.Addr.String()) {
+		if r.conf.Anonymize && !vfAnonOK(q.Addr) && q.ClientID == "" && strings.Contains(string(b), q.Addr.Unmap().String()) {
 			t.Fatalf("stats.db holds the un-anonymised address %s", q.Addr)
 		}
 	}
